@@ -434,11 +434,44 @@ func c04Enc(run *Run, r *Rng, c seqCase) (Outcome, Outcome) {
 			run.count("indent-case-skipped:reference-other-than-the-five-entities")
 			return oc, on
 		}
+		// a scalar stored under #comment / #directive / #procinst (only a mutated MapSeq has one: the decoders store maps
+		// there) is written as a raw fragment without its start tag; as character data it merges with the indentation
+		// around it, so the token stream is not comparable up to whitespace-only text.  The compact bytes above ARE compared.
+		if c04ScalarUnderSpecial(c.Map) {
+			run.count("indent-case-skipped:raw-fragment-under-special-key")
+			return oc, on
+		}
 	}
 	run.count("case:SEncI")
 	run.add(fmt.Sprintf("SEncI %s %s %s %s %s %s", oi.coq(), r.coqValShuf(c.Map), c04CoqOptStr(c.Root), coqBool(valid), coqToks(ts), c04XoutNoBytes(on)),
 		ci, on.text(), !on.Panicked && on.Err == nil)
 	return oc, on
+}
+
+// c04ScalarUnderSpecial: is a non-map, non-list value stored under one of the three special keys anywhere?
+func c04ScalarUnderSpecial(v interface{}) bool {
+	switch x := v.(type) {
+	case map[string]interface{}:
+		for k, e := range x {
+			if k == "#comment" || k == "#directive" || k == "#procinst" {
+				switch e.(type) {
+				case map[string]interface{}, []interface{}:
+				default:
+					return true
+				}
+			}
+			if c04ScalarUnderSpecial(e) {
+				return true
+			}
+		}
+	case []interface{}:
+		for _, e := range x {
+			if c04ScalarUnderSpecial(e) {
+				return true
+			}
+		}
+	}
+	return false
 }
 
 func c04Beau(run *Run, c seqCase) Outcome {
